@@ -66,8 +66,17 @@ template <class V> static void emit_view(const char* kind, int w, int h, std::ve
         { auto loc = v.xy_at(0, 0); for (int k = 0; k < x; ++k) ++loc.x(); for (int k = 0; k < y; ++k) ++loc.y(); axis.push_back(valp<V>(*loc)); }
     }
     for (auto it = v.begin(); it != v.end(); ++it) loop.push_back(valp<V>(*it));
+    // the same view arriving by ASSIGNMENT into an existing object (views are values: the copy must see the same pixels)
+    std::vector<long> assigned, assigned_it;
+    {
+        V w2; w2 = v;
+        V w3(v); w3 = w2;
+        for (int y = 0; y < vh; ++y) for (int x = 0; x < vw; ++x) assigned.push_back(valp<V>(w2(x, y)));
+        auto xit = w3.row_begin(0); (void)xit;
+        for (int y = 0; y < vh; ++y) { auto r = v.row_begin(0); r = w3.row_begin(y); for (int x = 0; x < vw; ++x) assigned_it.push_back(valp<V>(r[x])); }
+    }
     e.arr("p_xy", xy).arr("p_row", row).arr("p_col", col).arr("p_it1d", it1).arr("p_at", at).arr("p_rbegin", rb).arr("p_xyat", xyat).arr("p_xat", xat)
-     .arr("p_yat", yat).arr("p_itadv", itadv).arr("p_locmove", locm).arr("p_cache", cache).arr("p_axis", axis).arr("p_loop", loop);
+     .arr("p_yat", yat).arr("p_itadv", itadv).arr("p_locmove", locm).arr("p_cache", cache).arr("p_axis", axis).arr("p_loop", loop).arr("p_assigned", assigned).arr("p_assigned_it", assigned_it);
     // random-access laws of the 1-D iterator: every start i, offsets a then b (staying inside [0,n])
     long bad_assoc = 0, bad_back = 0, bad_dist = 0, bad_order = 0, bad_incdec = 0, nlaw = 0;
     for (long i = 0; i <= n; ++i) for (long a = -vw - 1; a <= vw + 1; ++a) for (long b : {(long)-vw, -1L, 0L, 1L, (long)vw}) {
